@@ -70,6 +70,25 @@ PROPS['C12'] = {
                     'termination of the flush loop is not proved (partial correctness), stated in trusted_base'],
 }
 
+PROPS['C15'] = {
+    'sidecars': ['contracts/C15_media.py'],
+    'level': 'proof',
+    'explanation': 'MediaCipher.encrypt equals the reference layout media_encrypt (derived IV/key/MAC key, ALWAYS padded AES-CBC, '
+                   '10-byte truncated HMAC over IV||ciphertext) for every plaintext, key and info string; decrypt returns only when the '
+                   'tag matches and raises ValueError otherwise, with no decryptor created before the comparison; the eight wrappers use '
+                   'the reference constants pairwise; spec lemma c15_roundtrip: decrypt(encrypt(p)) == p for all p (incl. empty and block '
+                   'aligned).  Relative to assumed contracts of HKDF / AES-CBC / PKCS7 / HMAC.  NOT decided: that a wrong key / kind / '
+                   'tampered byte fails the MAC - that is the unforgeability of HMAC-SHA256 truncated to 80 bits (an assumption); the '
+                   'bounded cross-check exercises it on generated corruptions.',
+    'native_checks': [{'name': 'c15_cross_check', 'role': 'cross-check', 'cmd': ['-m', 'pyvc.native', 'searchall', 'contracts/C15_media.py'],
+                       'bound': 'real MediaCipher vs the independent implementation in spec/media.py (hashlib/hmac, HKDF from RFC 5869, '
+                                'PKCS7 from the definition; AES from the cryptography library): plaintext lengths 0..65 exhaustively + larger, '
+                                '4 kinds, single-bit corruption, truncation, wrong key, wrong kind; quick 150 / thorough 3000 per function'}],
+    'assumptions': ['assumed contracts of HKDFv3.deriveSecrets, ByteUtil.split, cryptography Cipher/AES/CBC/PKCS7, hmac (contracts/C15_media.py, '
+                    'reason fields); AES-CBC decrypt inverts encrypt; output lengths',
+                    'HMAC-SHA256/80 unforgeability is NOT proved (cannot be): tamper rejection is decided only as "returns iff tag matches"'],
+}
+
 NOT_APPLICABLE = {
     'C11': 'quantifies over thread interleavings (2-4 sender threads through lock/queue operations); no verifier available here '
            'has a thread or permission model and sequential contracts cannot express "for every schedule" (DESIGN.md section 8)',
